@@ -536,6 +536,34 @@ def variant_shard(dtf, N):
                         tally.violation("insert:after-resize", {**case0, "op": "insert", "time": float(dt)}, f"after insert at dt the record reads {got}, expected {exp}", exp, got)
                 except Exception as ex:
                     tally.violation(f"variant:resize:insert:exception:{type(ex).__name__}", case0, repr(ex))
+    # ---- (4) integer-typed time tensors (whole multiples of an integral step time): same answers as the float times
+    if dt == 1:
+        for pushes in (N, N + 1):
+            ring = Ring(dt, N, E, pushes)
+            for iname in ("previous", "nearest", "linear"):
+                ifn, ikw = INTERPS[iname]
+                for ks in itertools.product(range(N), repeat=E):
+                    tally.add("evaluations")
+                    case = {"op": "select", "record": "integer time tensor", "dt": float(dt), "N": N, "pushes": pushes, "times": list(ks), "interp": iname}
+                    try:
+                        a = ring.rt.select(torch.tensor(list(ks), dtype=torch.int64), ifn, tolerance=0.0, offset=1, interp_kwargs=ikw).to(torch.float64).tolist()
+                        b = ring.rt.select(torch.tensor([float(k) for k in ks]), ifn, tolerance=0.0, offset=1, interp_kwargs=ikw).to(torch.float64).tolist()
+                    except Exception as ex:
+                        tally.violation(f"select:int-times:exception:{type(ex).__name__}", case, f"{type(ex).__name__}: {ex}", None, repr(ex))
+                        continue
+                    exp = [ring.M[(1 + ks[e]) % N][e] for e in range(E)]
+                    if a != b or a != exp:
+                        tally.violation("select:int-times", case, f"int64 times {a}, float times {b}, stored observations {exp}", exp, a)
+                    tally.mark("nontrivial", ("int-times", N, pushes, ks, iname))
+            try:
+                tally.add("evaluations")
+                r2 = Ring(dt, N, E, N)
+                r2.rt.insert(torch.tensor([1000.0, 1001.0]), torch.tensor([0, N - 1], dtype=torch.int64), fn.extrap_neighbors, tolerance=0.0, offset=1, inplace=False)
+                got = r2.rt.select(torch.tensor([0.0, float(N - 1)]), fn.interp_previous, tolerance=0.0, offset=1).tolist()
+                if got != [1000.0, 1001.0]:
+                    tally.violation("insert:int-times", {"record": "integer time tensor", "N": N}, f"insert at int64 times then select returned {got}", [1000.0, 1001.0], got)
+            except Exception as ex:
+                tally.violation(f"insert:int-times:exception:{type(ex).__name__}", {"record": "integer time tensor", "N": N}, f"{type(ex).__name__}: {ex}", None, repr(ex))
     tally.sample({"part": "variants", "dt": float(dt), "N": N})
     return tally
 
